@@ -12,6 +12,8 @@ CONSTANTS
   PreT <- MCPreT
   TracerOf <- MCTracerOf
   XKinds <- MCXKinds
+  Script <- MCScript
+  Kept <- MCKept
   RecsPer = @RECSPER@
   SpansPer = @SPANSPER@
   UsesPer = @USESPER@
